@@ -5,4 +5,5 @@ export CARGO_NET_OFFLINE=true
 cd /verif/harness
 cargo build -q -p mon
 cargo build -q --release -p mon
+(cd /verif/harness-sim && cargo build -q)
 echo "setup ok"
